@@ -159,7 +159,7 @@ def run_part(ctx, ops, prop, k, prefixes=("secsgem.secs",), resolve="checks.pair
     n = pairs.trace_modules(list(prefixes))
     whole = ctx.deadline
     if whole is not None:
-        ctx.deadline = min(whole, time.time() + 0.2 * max(0.0, whole - ctx.t0))
+        ctx.deadline = min(whole, time.time() + 0.4 * max(0.0, whole - ctx.t0))
     tot = 0
     parts = []
     outcomes = 0
